@@ -1,0 +1,49 @@
+//! Verification hooks (compiled only with `--cfg zipora_verif`).
+//!
+//! `sched_point` marks a place between two atomic steps of a concurrent mechanism where an
+//! external cooperative scheduler may pre-empt the calling thread; `event` reports a
+//! linearization point.  With no callback installed both are a relaxed load and a branch.
+//! Without `--cfg zipora_verif` this module does not exist.
+#![cfg(zipora_verif)]
+
+use std::sync::atomic::{AtomicUsize, Ordering};
+
+/// Callback invoked at a schedule point: `(site, a, b)`.
+pub type SchedFn = fn(&'static str, u64, u64);
+/// Callback invoked at an event: `(kind, a, b, c)`.
+pub type EventFn = fn(&'static str, u64, u64, u64);
+
+static SCHED: AtomicUsize = AtomicUsize::new(0);
+static EVENT: AtomicUsize = AtomicUsize::new(0);
+
+/// Install (or remove with `None`) the schedule-point callback.
+pub fn install_sched(f: Option<SchedFn>) {
+    SCHED.store(f.map_or(0, |f| f as usize), Ordering::SeqCst);
+}
+
+/// Install (or remove with `None`) the event callback.
+pub fn install_event(f: Option<EventFn>) {
+    EVENT.store(f.map_or(0, |f| f as usize), Ordering::SeqCst);
+}
+
+/// A point at which the calling thread may be pre-empted by the installed scheduler.
+#[inline]
+pub fn sched_point(site: &'static str, a: u64, b: u64) {
+    let p = SCHED.load(Ordering::Relaxed);
+    if p != 0 {
+        // SAFETY: only values produced from a `SchedFn` are ever stored.
+        let f: SchedFn = unsafe { std::mem::transmute::<usize, SchedFn>(p) };
+        f(site, a, b)
+    }
+}
+
+/// Report a linearization point to the installed observer.
+#[inline]
+pub fn event(kind: &'static str, a: u64, b: u64, c: u64) {
+    let p = EVENT.load(Ordering::Relaxed);
+    if p != 0 {
+        // SAFETY: only values produced from an `EventFn` are ever stored.
+        let f: EventFn = unsafe { std::mem::transmute::<usize, EventFn>(p) };
+        f(kind, a, b, c)
+    }
+}
